@@ -25,6 +25,11 @@ splitting  the same with method {"name": "splitting", "parameters": {...}}: one
            requested rate once, decoders[i] built for error_rates[i] (rate lists
            ascending / descending / unsorted, 1-4 rates), method parameters and
            recorded inputs as requested.
+variants   axis values that print alike (noise differing only in deformation_kwargs,
+           directions / rates / float decoder parameters 1e-9..1e-5 apart) are all
+           separate requested elements, in all three containers.
+pairing    every registered code x decoder pairing that constructs directly is built
+           from a spec naming it, inside or outside the decoder's allowed_codes.
 """
 import collections
 import contextlib
@@ -57,7 +62,10 @@ LEVEL_TEXT = ('Every spec of a complete finite box of spec shapes is parsed by t
               'names and the results-file round trip are finite sets and are swept completely. Defects of this '
               'property are shape dependent (a dropped axis, zip for product, a name bound to the wrong class), '
               'so a complete sweep of small shapes decides it inside the box.')
-LEVEL_NOTE = ('Composite decoders (any decoder holding BaseDecoder sub-objects: sweep+matching, X-cube): every '
+LEVEL_NOTE = ('Near-identical axis values and code x decoder pairings outside allowed_codes are part of the '
+              'alphabet (nothing may be merged or skipped on the strength of a printed label or a GUI hint); code '
+              'labels of the family sizes never collide, so no code-parameter variant exists to enumerate. '
+              'Composite decoders (any decoder holding BaseDecoder sub-objects: sweep+matching, X-cube): every '
               'sub-decoder of every built / re-instantiated decoder is compared (params, plain attributes, random '
               'generator state) with its class constructed by keyword from the decoder\'s parameters, and a '
               'sub-decoder parameter the decoder does not expose must not vary with the requested ones. '
@@ -83,7 +91,13 @@ RULE = ('registry: every key of the three registries and every exported code cla
         'splitting: every combination of (family incl. the composite-decoder family, container in {ranges, list of '
         'ranges}, code form x count, noise form x count, decoder parameter form, rate list in {scalar, ascending, '
         'descending, unsorted} x 1..4 rates, method parameter set); distinct = distinct spec JSON; non-trivial = '
-        '>= 2 rates (a decoder paired with another rate is then observable)')
+        '>= 2 rates (a decoder paired with another rate is then observable). variants: per family and axis in '
+        '{noise differing only in deformation_kwargs, noise directions 1e-9..1e-5 apart (plain and deformed), rates '
+        '1e-9..1e-5 apart, float decoder parameter 1e-9..1e-5 apart} x 3 containers x {1, 2} values on the other '
+        'axes: every near-identical value is its own requested element. pairing: every registered code (smallest '
+        'family size) x registered decoder x 3 noise directions x decoder parameter candidates whose decoder '
+        'constructs when called directly: a ranges spec naming the pairing must build it for both rates, whether '
+        'or not the code is in the decoder\'s allowed_codes; distinct = distinct spec JSON')
 ASSUMPTIONS = [
     'n = 2ab (Toric2D), 2ab-a-b+1 (Planar2D), ab (RotatedPlanar2D), 3abc (Toric3D) as reference qubit counts',
     'omitted lattice lengths default to L_x (L_z only for 3-D classes), omitted decoder parameters default to '
@@ -163,6 +177,28 @@ SPLIT_METHOD_PARAMS = [{'n_init_runs': 7}, {'n_init_runs': 3, 'start_run': 2}]
 _SPLIT_FORM_COUNTS = {'quick': [('dict', 1), ('poslist', 2)],
                       'thorough': [('dict', 1), ('list', 2), ('poslist', 3), ('rlist', 3)]}
 
+# near-identical values on one axis (values that print alike, or differ only in a parameter that labels leave
+# out): every one of them is a separate requested element
+_CLOSE_DELTAS = [0, 1e-9, 1e-7, 1e-5]
+VARIANT_AXES = {
+    'noise-kwargs': {'noise': [
+        {'r_x': 0, 'r_y': 0, 'r_z': 1, 'deformation_name': 'XZZX', 'deformation_kwargs': {'deformation_axis': 'x'}},
+        {'r_x': 0, 'r_y': 0, 'r_z': 1, 'deformation_name': 'XZZX', 'deformation_kwargs': {'deformation_axis': 'y'}},
+        {'r_x': 0, 'r_y': 0, 'r_z': 1, 'deformation_name': 'XZZX'}]},
+    'noise-direction': {'noise': [{'r_x': d, 'r_y': 0, 'r_z': 1 - d} for d in _CLOSE_DELTAS]},
+    'noise-direction-deformed': {'noise': [
+        {'r_x': d, 'r_y': 0, 'r_z': 1 - d, 'deformation_name': 'XZZX'} for d in _CLOSE_DELTAS[:3]]},
+    'rate': {'rates': [0.1 + d for d in _CLOSE_DELTAS]},
+    'decoder-parameter': {},            # families with a float decoder parameter ('dclose')
+}
+FAMILIES[3]['dclose'] = [{'alpha': 0.5}, {'alpha': 0.5 + 1e-9}, {'alpha': 0.5 + 1e-5}]
+# (code, decoder) pairings: every registered code x registered decoder x these noise / parameter candidates that
+# CONSTRUCTS when called directly must also come out of a spec naming it (allowed_codes is a hint for the GUI)
+PAIR_NOISE = [{'r_x': 1, 'r_y': 0, 'r_z': 0}, {'r_x': 0, 'r_y': 0, 'r_z': 1},
+              {'r_x': 1 / 3, 'r_y': 1 / 3, 'r_z': 1 / 3}]
+PAIR_DECODER_PARAMS = {'MatchingDecoder': [{}, {'error_type': 'X'}, {'error_type': 'Z'}]}
+PAIR_RATES = [0.02, 0.05]
+
 # roundtrip part
 _RT_NOISE = [{'r_x': 1, 'r_y': 0, 'r_z': 0},
              {'r_x': 1 / 3, 'r_y': 1 / 3, 'r_z': 1 / 3},
@@ -229,7 +265,7 @@ _NOISE_KEYS = ['r_x', 'r_y', 'r_z', 'deformation_name', 'deformation_kwargs']
 # reference (shares no code with panqec)
 
 def ref_code(name, p):
-    dim = _DIM[name]
+    dim = _DIM[name] if name in _DIM else (2 if name in F.CLASSES_2D else 3)
     if isinstance(p, dict):
         lx, ly, lz = p['L_x'], p.get('L_y'), p.get('L_z')
     else:
@@ -484,6 +520,17 @@ def cases(tier, seed):
                                'code_form': cform, 'n_code': nc, 'noise_form': nform, 'n_noise': nn})
     sp.sort(key=lambda c: (c['n_code'] * c['n_noise'], c['family'], c['container']))
     out += sp
+    # near-identical values on one axis; pairings of every code with every decoder
+    fams = list(range(b['families']))
+    for fi in range(len(FAMILIES)):
+        for axis in VARIANT_AXES:
+            if axis == 'decoder-parameter':
+                if 'dclose' in FAMILIES[fi]:
+                    out.append({'part': 'variants', 'family': fi, 'axis': axis})
+            elif fi in fams:
+                out.append({'part': 'variants', 'family': fi, 'axis': axis})
+    for name in F.CLASSES:
+        out.append({'part': 'pairing', 'cls': name})
     # sessions: specs in different parameter forms parsed one after the other in ONE process
     for fi in range(b['families']):
         # (an asymmetric subset of the sizes after the full set: a mix-up between two sizes of the full
@@ -507,6 +554,10 @@ def eval_case(case):
         return eval_roundtrip(case)
     if case['part'] == 'splitting':
         return eval_splitting(case)
+    if case['part'] == 'variants':
+        return eval_variants(case)
+    if case['part'] == 'pairing':
+        return eval_pairing(case)
     return eval_expand(case)
 
 
@@ -1373,3 +1424,171 @@ def eval_splitting(case):
     res['violations'] = res['violations'][:5]
     res['outcomes'] = sorted(set(res['outcomes']))[:50]
     return res
+
+
+# --------------------------------------------------------------------------------------------
+# part 5: near-identical axis values; part 6: code x decoder pairings
+
+def _generic_spec(container, cname, code_elems, noise_elems, dname, dlist, rates):
+    """-> (spec, reference product by nested loops)"""
+    product = []
+    for cp in code_elems:
+        for nz in noise_elems:
+            for dreq in dlist:
+                for r in rates:
+                    product.append((cname, cp, nz, dname, dreq, r))
+    if container == 'runs':
+        runs = []
+        for (_c, cp, nz, _d, dreq, r) in product:
+            dec = {'name': dname}
+            if dreq:
+                dec['parameters'] = dreq
+            runs.append({'label': 'c13', 'code': {'name': cname, 'parameters': cp},
+                         'error_model': {'name': 'PauliErrorModel', 'parameters': nz},
+                         'decoder': dec, 'error_rate': r})
+        return {'runs': runs}, product
+    dec = {'name': dname}
+    if any(dlist):
+        dec['parameters'] = list(dlist)
+    rng = {'label': 'c13', 'code': {'name': cname, 'parameters': list(code_elems)},
+           'error_model': {'name': 'PauliErrorModel', 'parameters': list(noise_elems)},
+           'decoder': dec, 'error_rate': list(rates)}
+    if container == 'ranges':
+        return {'ranges': rng}, product
+    rng2, product2 = _second_range()
+    return {'ranges': [rng, rng2]}, product + product2
+
+
+def _check_spec(res, all_v, tmp, tag, spec, product, key0):
+    """parse `spec` by read_input_json and read_input_dict and compare the built simulations, as a multiset,
+    with the reference product."""
+    from panqec.simulation import read_input_dict, read_input_json
+    text = json.dumps(spec)
+    expected = collections.Counter(ref_observation(*t) for t in product)
+    spec_path = os.path.join(tmp, 'spec_%s.json' % tag)
+    with open(spec_path, 'w') as f:
+        f.write(text)
+    out_path = os.path.join(tmp, 'out_%s.json' % tag)
+    status = []
+    for pname, fn in (('read_input_json', lambda: read_input_json(spec_path, out_path)),
+                      ('read_input_dict', lambda: read_input_dict(json.loads(text), out_path, verbose=False))):
+        res['evals'] += 1
+        try:
+            with _quiet():
+                batch = fn()
+            sims = list(batch._simulations)
+            cache = {}
+            got = collections.Counter(observe(x, cache) for x in sims)
+            cprob, _n = composite_batch_problems(sims)
+        except Exception as exc:
+            status.append('raises:' + type(exc).__name__)
+            all_v.append({'key': dict(key0, kind='raises', path=pname, exc=type(exc).__name__, where=_where(exc)),
+                          'detail': {'message': str(exc)[:200], 'spec': spec if len(text) < 1500 else text[:1500]}})
+            continue
+        for kind, kf, det in cprob:
+            all_v.append({'key': dict(key0, kind=kind, path=pname, **kf), 'detail': det})
+        if got != expected:
+            missing, extra = _multiset_diff(got, expected)
+            status.append('mismatch')
+            all_v.append({'key': dict(key0, kind='expansion-mismatch', path=pname,
+                                      n_expected=sum(expected.values()), n_got=sum(got.values()),
+                                      dropped=bool(missing), unrequested_or_duplicated=bool(extra)),
+                          'detail': {'missing': [json.loads(x) for x in list(missing)[:2]],
+                                     'extra': [json.loads(x) for x in list(extra)[:2]],
+                                     'n_missing': sum(missing.values()), 'n_extra': sum(extra.values()),
+                                     'spec': spec if len(text) < 1500 else text[:1500]}})
+        else:
+            status.append('ok%d' % len(sims))
+    return status, _digest(text)
+
+
+def _finish(res, all_v, digests, counter_name):
+    res['nontrivial'] = len(digests)
+    _bump(res, counter_name, len(digests))
+    _bump(res, 'violations_total', len(all_v))
+    seen = set()
+    for v in all_v:
+        t = (v['key']['kind'], v['key'].get('path'), v['key'].get('container'), v['key'].get('decoder'))
+        if t not in seen:
+            seen.add(t)
+            res['violations'].append(v)
+    res['violations'] = res['violations'][:5]
+    res['outcomes'] = sorted(set(res['outcomes']))[:50]
+    return res
+
+
+def eval_variants(case):
+    fam = FAMILIES[case['family']]
+    axis = case['axis']
+    va = VARIANT_AXES[axis]
+    res = _new_res()
+    all_v, digests = [], set()
+    code_elems = list(fam['sizes'][:2])
+    noise_elems = list(va.get('noise', _NOISE[:2]))
+    rates = list(va.get('rates', [0.1, 0.2]))
+    dlist = list(fam['dclose']) if axis == 'decoder-parameter' else list(fam['dsets'][:2])
+    tmp = tempfile.mkdtemp(prefix='c13_', dir='/dev/shm' if os.path.isdir('/dev/shm') else None)
+    try:
+        for container in ('ranges', 'ranges-list', 'runs'):
+            for n_other in (1, 2):          # the other axes with one value, then with two
+                ce = code_elems[:n_other]
+                ne = noise_elems if 'noise' in va else noise_elems[:n_other]
+                re_ = rates if 'rates' in va else rates[:n_other]
+                dl = dlist if axis == 'decoder-parameter' else dlist[:n_other]
+                spec, product = _generic_spec(container, fam['code'], ce, ne, fam['decoder'], dl, re_)
+                key0 = {'part': 'variants', 'axis': axis, 'family': fam['code'], 'decoder': fam['decoder'],
+                        'container': container, 'other_axes_values': n_other}
+                status, dg = _check_spec(res, all_v, tmp, '%s%d' % (container, n_other), spec, product, key0)
+                digests.add(dg)
+                res['outcomes'].append('var|%s|%s|%s' % (axis, container, ','.join(status)))
+        res['samples'].append({'axis': axis, 'last_spec': spec if len(json.dumps(spec)) < 900 else None})
+    finally:
+        shutil.rmtree(tmp, ignore_errors=True)
+    return _finish(res, all_v, digests, 'variant_specs')
+
+
+def eval_pairing(case):
+    import panqec.codes as PC
+    from panqec.config import DECODERS
+    from panqec.error_models import PauliErrorModel
+    name = case['cls']
+    res = _new_res()
+    all_v, digests = [], set()
+    size = list(F.sizes(name, 0, None, 1)[0])
+    try:
+        code = getattr(PC, name)(*size)
+        code.stabilizer_matrix
+    except Exception:
+        res['skipped'] += 1
+        res['evals'] += 1
+        return res
+    tmp = tempfile.mkdtemp(prefix='c13_', dir='/dev/shm' if os.path.isdir('/dev/shm') else None)
+    n_spec = 0
+    try:
+        for dname in sorted(DECODERS):
+            D = DECODERS[dname]
+            if D.__name__ != dname:
+                continue                  # a mis-bound name is the registry part's finding
+            allowed = D.allowed_codes is None or name in D.allowed_codes
+            for nz in PAIR_NOISE:
+                for dreq in PAIR_DECODER_PARAMS.get(dname, [{}]):
+                    res['evals'] += 1
+                    try:
+                        with _quiet():
+                            for p in PAIR_RATES:
+                                D(code, PauliErrorModel(**nz), p, **dreq)
+                    except Exception:
+                        _bump(res, 'pairings_not_constructible')
+                        continue
+                    n_spec += 1
+                    spec, product = _generic_spec('ranges', name, [size], [nz], dname, [dreq], PAIR_RATES)
+                    key0 = {'part': 'pairing', 'cls': name, 'size': size, 'decoder': dname,
+                            'in_allowed_codes': allowed, 'noise': cj(nz), 'decoder_params': cj(dreq)}
+                    status, dg = _check_spec(res, all_v, tmp, 's%d' % n_spec, spec, product, key0)
+                    digests.add(dg)
+                    _bump(res, 'pairings_outside_allowed_codes' if not allowed else 'pairings_inside_allowed_codes')
+                    res['outcomes'].append('pair|%s|%s|%s' % (dname, allowed, ','.join(status)))
+        res['samples'].append({'cls': name, 'size': size, 'constructible_pairing_specs': n_spec})
+    finally:
+        shutil.rmtree(tmp, ignore_errors=True)
+    return _finish(res, all_v, digests, 'pairing_specs')
